@@ -266,14 +266,16 @@ impl Iterator for MarkdownIterator<'_> {
                 }
 
                 // gather optional per-test config
-                let config_lines: Vec<(usize, String)> = if let Some(config) = config
+                let config_lines: Vec<(usize, String)> = match config
                     .strip_prefix('{')
                     .and_then(|s| s.strip_suffix('}'))
-                    .and_then(|s| if s.trim().is_empty() { None } else { Some(s) })
                 {
-                    vec![(self.line_index - 1, config.into())]
-                } else {
-                    vec![]
+                    Some(config) if config.trim().is_empty() => vec![],
+                    Some(config) => vec![(self.line_index - 1, config.into())],
+                    // a brace that is not closed, or text behind the closing one: not
+                    // dropped silently, but kept as it is so that reading it fails
+                    None if !config.is_empty() => vec![(self.line_index - 1, config.into())],
+                    None => vec![],
                 };
 
                 // gather leading comments, then code until the closing backticks;
